@@ -77,7 +77,14 @@ async fn streaming_process(
     journal_path: &Path,
     flush_period: Duration,
 ) -> anyhow::Result<()> {
-    let mut flush_fut = tokio::time::interval(flush_period);
+    // `interval` refuses a zero period. A zero flush period means that each event is written
+    // as soon as it is stored; the periodic flush then has nothing to do.
+    let flush_each_event = flush_period.is_zero();
+    let mut flush_fut = tokio::time::interval(if flush_each_event {
+        Duration::from_secs(3600)
+    } else {
+        flush_period
+    });
     let mut events = 0;
     loop {
         tokio::select! {
@@ -100,6 +107,9 @@ async fn streaming_process(
                             );
                         } else {
                             events += 1;
+                            if flush_each_event {
+                                writer.flush()?;
+                            }
                         }
                         if end {
                             writer.flush()?;
